@@ -12,6 +12,37 @@ typedef MPT_STRUCT(config_item) item_t;
 static const MPT_STRUCT(type_traits) h_item_traits;
 const MPT_STRUCT(type_traits) *mpt_config_item_traits(void) { return &h_item_traits; }
 static struct { MPT_STRUCT(buffer) b; item_t it[2]; } h_buf;
+#ifdef UNIT_RESERVE
+/* mpt_config_item_reserve on a store of two slots, the first one free (an element that was removed), the second in use:
+ * an assignment to the name in use gets that element (no duplicate in front of it); any other name re-uses the free
+ * slot and leaves the element in use alone. */
+MPT_STRUCT(buffer) *_mpt_buffer_alloc(size_t len, int flags) { (void) len; (void) flags; return 0; }
+void *mpt_array_insert(MPT_STRUCT(array) *a, size_t pos, size_t len) { (void) a; (void) pos; (void) len; return 0; }
+ssize_t mpt_buffer_cut(MPT_STRUCT(buffer) *b, size_t off, size_t len) { (void) b; (void) off; (void) len; return 0; }
+size_t mpt_array_reduce(MPT_STRUCT(array) *a) { (void) a; return 0; }
+void harness(void)
+{
+	IN(char, in_n1); IN(char, in_q);
+	_MPT_UARRAY_TYPE(item_t) arr; MPT_STRUCT(path) path = MPT_PATH_INIT; item_t *r; char q[2]; int i;
+	V_REQ(in_n1 > ' ' && in_q > ' ' && in_n1 != '.' && in_q != '.');
+	for (i = 0; i < 2; i++) {
+		item_t *it = &h_buf.it[i];
+		it->elements._buf = 0; it->value = 0;
+		it->identifier._len = i ? 2 : 0; it->identifier._charset = MPT_CHARSET(UTF8); it->identifier._max = 4 + sizeof(char *);
+		it->identifier._val[0] = i ? in_n1 : 0; it->identifier._val[1] = 0; it->identifier._base = 0;
+	}
+	h_buf.b._content_traits = &h_item_traits; *((size_t *) &h_buf.b._size) = sizeof(h_buf.it); h_buf.b._used = 2 * sizeof(item_t);
+	arr._buf = &h_buf.b;
+	q[0] = in_q; q[1] = 0;
+	path.base = q; path.off = 0; path.len = 2; path.sep = '.'; path.assign = 0;
+	r = mpt_config_item_reserve(&arr, &path);
+	V_CHECK("reserve: the element already carrying the name is the one assigned to, a free slot in front of it stays free", IMP(in_q == in_n1, r == &h_buf.it[1] && h_buf.it[0].identifier._len == 0));
+	V_CHECK("reserve: a new name re-uses the free slot and leaves the element in use alone", IMP(in_q != in_n1, r == &h_buf.it[0] && h_buf.it[0].identifier._len == 2 && h_buf.it[0].identifier._val[0] == in_q && h_buf.it[1].identifier._len == 2 && h_buf.it[1].identifier._val[0] == in_n1));
+	V_COVER("existing element behind a free slot", r == &h_buf.it[1]);
+	V_COVER("free slot re-used", r == &h_buf.it[0]);
+	V_CANARY();
+}
+#else
 void harness(void)
 {
 	const size_t in_used_items = USED;      /* per-unit constant: used / sizeof(item) on a symbolic fill level is a divider circuit the SAT back end does not finish (measured: > 600 s) */
@@ -38,3 +69,4 @@ void harness(void)
 #endif
 	V_CANARY();
 }
+#endif
